@@ -26,6 +26,8 @@ Checking requests (`<op> <args…> => <implementation output>`, answered `model=
                                            checks the statement of Props/C05 recordset_write_paged_spec on the instance
   pwset2c <pre> <codec> <now> <recs> <plainhex> => <hex>   the same with a compressor installed (writeSetV2PagedC; the
                                            compressor's bytes are taken from the implementation, as for wmodel2c)
+  pwset1 <pre> <attrs> <recs> <plainhex|-> => <hex>   RecordSet.WriteTo, Version 1, on the real page buffer ≡
+                                           writeV1Paged / writeV1PagedC (render in place, scan, compress, Truncate, wrapper)
   pbuf <ops,…> => <digests,…>              sequences of Write / WriteAt / ReadAt / scan / Truncate / ref+ReadAt on the real
                                            pageBuffer (export hook) against Model/PageBuffer with the extracted pageSize
   ptrace <a|r<id>|f<id>|u<id>,…> => ok <n>   the page-event trace recorded by the hooks in protocol/buffer.go during a
@@ -305,6 +307,35 @@ def step (line : String) : String :=
           s!"model={h} holds={if h == impl && thm && inner then 1 else 0}"
         | _, _ => s!"model=error holds={if impl == "error" then 1 else 0}"
       | _, _, _, _, _, _ => "bad-op"
+    | ["pwset1", pre, attrs, recs, plain] =>
+      -- RecordSet.WriteTo, Version 1, on the real page buffer: uncompressed (attrs % 8 = 0, plain = "-") or with a codec
+      -- (wrapper timestamp = time.Now() and the compressor's output read off the implementation's bytes)
+      match pre.toNat?, attrs.toInt?, (recs.splitOn ";").mapM parseProd, ofHex impl with
+      | some pre, some attrs, some rs, some ib =>
+        let P := Gen.RecordConsts.pageSize
+        let prefix_ : Bytes := (List.range pre).map (fun i => (i % 251).toUInt8)
+        let pb := Model.RecordWriter.pagesOf P prefix_
+        let skip := (min pre 16) + 4
+        let res :=
+          if attrs % 8 = 0 then
+            (Model.RecordWriter.writeSetPagedWith P (fun b => some (Model.RecordWriter.writeV1Paged P crcs.ieee attrs 0 0 rs b)) pb,
+             Model.RecordWriter.writeV1 crcs.ieee attrs 0 0 rs, true)
+          else
+            let comp := ib.drop (skip + 34)
+            let now : Int := match readI64 (ib.drop (skip + 18)) with | some (t, _) => t | none => 0
+            let inner := match ofHex plain with
+              | some pl => Model.RecordWriter.writeV1 crcs.ieee (attrs - attrs % 8) now 0 rs == pl
+              | none => false
+            (Model.RecordWriter.writeSetPagedWith P (fun b => some (Model.RecordWriter.writeV1PagedC P crcs.ieee (fun _ => comp) attrs now rs b)) pb,
+             Model.RecordWriter.writeV1C crcs.ieee (fun _ => comp) attrs now rs, inner)
+        match res with
+        | (some pb', bytes, inner) =>
+          let fl := Model.PageBuffer.flat pb'
+          let h := toHex (fl.drop (pre - 16))
+          let thm := fl == prefix_ ++ (RW.u32 bytes.length ++ bytes)
+          s!"model={h} holds={if h == impl && thm && inner then 1 else 0}"
+        | (none, _, _) => "model=error holds=0"
+      | _, _, _, _ => "bad-op"
     | ["pbuf", opsText] =>
       let model := match runPbuf Gen.RecordConsts.pageSize (opsText.splitOn ",") ⟨0, []⟩ [] with
         | some ds => if ds.isEmpty then "-" else ",".intercalate ds
